@@ -9,7 +9,7 @@
 (*   "b1"   a = opcode, b = byte            one-byte operand; st = "d" (signed decimal) or "x" *)
 (*   "b2"   a = 52, b = <<i, j>>            SWAP                          *)
 (*   "b3"   a = 70|71, b = <<flags, m, n>>  CHECK_MULTISIG(_VERIFY)       *)
-(*   "f4"   a = 23|25, b = 4 bytes          float divisor (hex spelling)  *)
+(*   "f4"   a = 23|25, b = 4 bytes          float divisor; st = "f": written as an f literal, else hex *)
 (*   "h32"  a = 60, b = 32 bytes            MERKLEVAL                     *)
 (*   "s1"   a = opcode, b = value           size byte + value             *)
 (*   "wc"   b = key value, c = count        WRITE_CACHE                   *)
@@ -27,21 +27,24 @@
 (*   "ct"   b = body                    push ~ { body }                   *)
 (*   "ctx"  b = body                    push ~! { body }   (executed)     *)
 (*   "cmt"                              a comment                         *)
-(* A value is [k |-> "d"|"x"|"s", i |-> integer, b |-> bytes].            *)
+(* A value is [k |-> "d"|"x"|"s"|"f", i |-> integer, b |-> bytes]; an "f"  *)
+(* value is a 4-byte binary32 pattern written as its decimal text.        *)
 (***************************************************************************)
-EXTENDS TapeVM, Isa, TLC
+EXTENDS TapeVM, Isa, Float32, TLC
 
 \* Every node has the same fields with the same types (TLC compares them):
 \*   a integer, y bytes, v value, vs sequence of values, b / c sequences of nodes, st string
 VD(i) == [k |-> "d", i |-> i, b |-> <<>>]
 VX(b) == [k |-> "x", i |-> 0, b |-> b]
 VS(b) == [k |-> "s", i |-> 0, b |-> b]
+VF(b) == [k |-> "f", i |-> 0, b |-> b]        \* a float literal: b = the binary32 pattern of a small dyadic value
 VDB(b) == [k |-> "D", i |-> 0, b |-> b]        \* a decimal integer of any size, given by its minimal encoding
 NoVal == VX(<<>>)
 Mk(n, a, y, v, vs, b, c, st) == [n |-> n, a |-> a, y |-> y, v |-> v, vs |-> vs, b |-> b, c |-> c, st |-> st]
 NOp0(op)        == Mk("op0", op, <<>>, NoVal, <<>>, <<>>, <<>>, "")
 NB1(op, x, st)  == Mk("b1", op, <<x>>, NoVal, <<>>, <<>>, <<>>, st)
 NBn(k, op, y)   == Mk(k, op, y, NoVal, <<>>, <<>>, <<>>, "")          \* "b2" "b3" "f4" "h32"
+NF4(op, y)      == Mk("f4", op, y, NoVal, <<>>, <<>>, <<>>, "f")          \* float divisor written as an f literal
 NS1(op, v)      == Mk("s1", op, <<>>, v, <<>>, <<>>, <<>>, "")
 NWc(v, n)       == Mk("wc", n, <<>>, v, <<>>, <<>>, <<>>, "")
 NPush(v)        == Mk("push", 0, <<>>, v, <<>>, <<>>, <<>>, "")
@@ -130,6 +133,7 @@ ValTok(v) == CASE v.k = "d" -> "d" \o ToString(v.i)
                [] v.k = "D" -> "d" \o DecStr(DecS(v.b))
                [] v.k = "x" -> "x" \o Hex(v.b)
                [] v.k = "s" -> "s\"" \o Text(v.b) \o "\""
+               [] v.k = "f" -> "f" \o FText(FValue(v.b))
 
 RECURSIVE SeqFlat(_)
 SeqFlat(ss) == IF ss = <<>> THEN <<>> ELSE Head(ss) \o SeqFlat(Tail(ss))
@@ -140,7 +144,7 @@ Toks(x) ==
       [] x.n = "b1"   -> <<OpName(x.a), IF x.st = "x" THEN "x" \o HexByte(x.y[1]) ELSE "d" \o ToString(S8(x.y[1]))>>
       [] x.n = "b2"   -> <<OpName(x.a), "d" \o ToString(x.y[1]), "d" \o ToString(x.y[2])>>
       [] x.n = "b3"   -> <<OpName(x.a), "x" \o HexByte(x.y[1]), "d" \o ToString(x.y[2]), "d" \o ToString(x.y[3])>>
-      [] x.n \in {"f4", "h32"} -> <<OpName(x.a), "x" \o Hex(x.y)>>
+      [] x.n \in {"f4", "h32"} -> <<OpName(x.a), IF x.st = "f" THEN "f" \o FText(FValue(x.y)) ELSE "x" \o Hex(x.y)>>
       [] x.n = "s1"   -> <<OpName(x.a), ValTok(x.v)>>
       [] x.n = "wc"   -> <<"OP_WRITE_CACHE", ValTok(x.v), "d" \o ToString(x.a)>>
       [] x.n = "push" -> <<"OP_PUSH", ValTok(x.v)>>
